@@ -11,8 +11,8 @@ DESIGN_REF = "DESIGN.md §9 C01, §12.C01"
 COQ_TARGETS = ["Properties/C01", "Pins/C01"]
 THEOREMS = [("PdfV.Properties.C01", n) for n in
             ["C01_lexer_step", "C01_lex_total", "C01_string_lex_total", "C01_hexstring_lex_total", "C01_parse_total", "C01_parse_progress",
-             "C01_parse_fuel_linear", "C01_parse_indirect_total", "C01_parse_seq_total", "C01_decode_hex_total", "C01_decode_85_total",
-             "C01_rle_terminates", "C01_rle_total_on_complete", "C01_rle_panic_sites", "C01_rle_refuted", "C01_full_statement_refuted"]]
+             "C01_parse_fuel_linear", "C01_parse_indirect_total", "C01_parse_seq_total", "C01_decoders_total", "C01_decode_hex_total",
+             "C01_decode_85_total", "C01_rle_total", "C01_objstm_member_total", "C01_xref_stream_total", "C01_full"]]
 ANCHORS = ["lexer/", "parser/", "enc.rs"]
 MODES = ["lex", "strlex", "hexlex", "parse", "parse_seq", "parse_indirect", "hexdec", "a85dec", "rledec"]
 MODEL_TIMEOUT = 30.0
@@ -22,8 +22,10 @@ TRUSTED_BASE = ["coqc 8.16.1 kernel (front-end theorems, once listed in THEOREMS
                 "the child wraps every public call in catch_unwind and prints a transcript; the parent classifies exit status / signal / watchdog",
                 "tools/oracle/hostile.py (mutation, grammar and planting generators), tools/oracle/pdfwriter.py (spec-side file writer), tools/vplib",
                 "the list of public read calls exercised by harness/src/modes/safety.rs (reported as coverage.call_hist)"]
-ASSUMPTIONS = ["proved part (Coq model): the front end — lexer, string lexers, parser with MAX_DEPTH, indirect objects, ASCIIHex / ASCII85 / RunLength decoders — "
-               "never reaches a Panic site and never runs out of fuel on any byte string (theorems to be listed in THEOREMS)",
+ASSUMPTIONS = ["proved part (Coq model): the front end — lexer, string lexers, parser with MAX_DEPTH, indirect objects (proved in Safety/FrontProofs.v); every stream decoder, "
+               "filter chain and stream dictionary (imported: the Codec area's lemmas behind C05_no_panic, libflate / weezl as total oracles); object-stream members "
+               "(ObjStm model) and cross-reference stream sections (XRef model, the lemma behind C02_stream_no_panic) — never reach a Panic site and never run out of fuel "
+               "on any byte string; the imported models are kept faithful by the checks of their own areas (C05, C11, C02)",
                "explored part: everything above Primitive (typed loading, fonts, colour spaces, functions, images, trees, scan) is exercised by the walk on "
                "mutated, grammar-generated and planted files; absence of a panic there is evidence, not proof",
                "external decoders (libflate, weezl, fax, jpeg-decoder) are run as they are; a panic inside them is reported with the crate-relative site",
@@ -36,7 +38,8 @@ RULE = ("every repository fixture (valid files, past fuzz crashes, password-prot
         "numbers; the full set belongs to C14).  Each case runs in a child process; judged by status CLEAN (no panic, no abort, no time-out). "
         "Non-trivial = file of at least 16 bytes; distinct by (options, cache, file bytes)")
 LEVEL_TEXT = "front end proved in the Coq model; typed loading explored by the walk"
-LEVEL_NOTE = ("partial: the theorems cover bytes -> primitives -> decoded ASCIIHex/ASCII85/RunLength stream data; every call above that level "
+LEVEL_NOTE = ("partial: the theorems cover bytes -> primitives (own proofs), decoded stream data under every modelled filter, object-stream members and xref-stream "
+              "sections (theorems imported from the Codec / ObjStm / XRef areas); every call above that level "
               "(typed objects, fonts, colour spaces, functions, images, trees, scan, external decoders) is covered by exploration only")
 
 CONFIGS = [(b"s", b"c"), (b"s", b"n"), (b"t", b"c"), (b"t", b"n")]
@@ -99,7 +102,8 @@ def _walk_generate(rng, tier):
             yield c
     # 5. planted graphs (sample; C14 runs the full set)
     planted = list(H.planted(rng, "quick"))
-    must = [p for p in planted if p[0].split(":")[0] in ("deep", "valid") or (p[0].startswith("cycle:") and "." not in p[0].split(":")[1])]
+    must = [p for p in planted if p[0].split(":")[0] in ("deep", "valid") or (p[0].startswith("cycle:") and "." not in p[0].split(":")[1])
+            or p[0].startswith("num:objstm-index")]
     rest = [p for p in planted if p not in must]
     pick = must + rng.sample(rest, min(len(rest), 160 if quick else 2500))
     for i, (tag, data) in enumerate(pick):
@@ -160,10 +164,7 @@ def _match(line):
 
 def classify(case, impl, model):
     if case.mode != "walk":
-        # front-end modes: the only listed panic is RunLength's (C01-a), the sites the model predicts (102 / 103)
-        if case.mode == "rledec" and impl[0] == "PANIC" and "enc.rs" in impl[1] and model is not None and model[0] == "PANIC":
-            return "C01-a"
-        return None
+        return None           # front-end modes: no panic is listed any more (C01-a, RunLength, is repaired)
     lines = _lines(impl)
     ids = [_match(l) for l in lines]
     # a hang that follows a caught panic is attributable (to the entry marked after_panic) only if a panic precedes it
